@@ -49,6 +49,35 @@ fn check_date(y: i64, m: i64, d: i64) -> CaseResult {
         "{date}: weekday {:?} want mon0={wd}",
         date.weekday()
     );
+    // the weekday in every numbering scheme and through the weekday algebra (day 0 is a
+    // Thursday, so the weekday is Thursday advanced by the day count)
+    {
+        let w = date.weekday();
+        let sun0 = (wd + 1) % 7;
+        ensure!(
+            (w.to_monday_one_offset() as i64, w.to_sunday_zero_offset() as i64, w.to_sunday_one_offset() as i64) == (wd + 1, sun0, sun0 + 1),
+            "weekday-numbering",
+            "{date}: {w:?} numbered mon1={} sun0={} sun1={}, want {} {} {}",
+            w.to_monday_one_offset(), w.to_sunday_zero_offset(), w.to_sunday_one_offset(), wd + 1, sun0, sun0 + 1
+        );
+        ensure!(
+            Weekday::from_monday_one_offset(wd as i8 + 1).ok() == Some(w) && Weekday::from_sunday_zero_offset(sun0 as i8).ok() == Some(w) && Weekday::from_sunday_one_offset(sun0 as i8 + 1).ok() == Some(w),
+            "weekday-from-numbering",
+            "{date}: from_*_offset do not rebuild {w:?}"
+        );
+        let thu = Weekday::Thursday;
+        ensure!(thu.wrapping_add(dn) == w && w.wrapping_sub(dn) == thu && thu.wrapping_sub(-dn) == w, "weekday-wrapping", "{date}: Thursday.wrapping_add({dn}) = {:?}, {w:?}.wrapping_sub({dn}) = {:?}", thu.wrapping_add(dn), w.wrapping_sub(dn));
+        let r = dn.rem_euclid(7);
+        ensure!(w.since(thu) as i64 == r && thu.until(w) as i64 == r && thu.since(w) as i64 == (7 - r) % 7, "weekday-since-until", "{date}: {w:?}.since(Thursday) = {} want {r}", w.since(thu));
+        let fwd: Vec<i64> = w.cycle_forward().take(9).map(|x| x.to_monday_zero_offset() as i64).collect();
+        let rev: Vec<i64> = w.cycle_reverse().take(9).map(|x| x.to_monday_zero_offset() as i64).collect();
+        ensure!(
+            (0..9).all(|i| fwd[i as usize] == (wd + i) % 7 && rev[i as usize] == (wd - i).rem_euclid(7)),
+            "weekday-cycle",
+            "{date}: cycle_forward {fwd:?} cycle_reverse {rev:?} from mon0={wd}"
+        );
+        ensure!(w.next().to_monday_zero_offset() as i64 == (wd + 1) % 7 && w.previous().to_monday_zero_offset() as i64 == (wd + 6) % 7, "weekday-next-previous", "{date}: {w:?}.next() = {:?}, previous() = {:?}", w.next(), w.previous());
+    }
     let doy = rc::day_of_year(y, m, d);
     ensure!(date.day_of_year() as i64 == doy, "day-of-year", "{date}: day_of_year {} want {doy}", date.day_of_year());
     let want_noleap = if rc::is_leap(y) {
@@ -251,6 +280,12 @@ fn replay_dates(v: Value) -> CaseResult {
 fn check_ctor(y: i64, m: i64, d: i64) -> CaseResult {
     let want = (-9999..=9999).contains(&y) && (1..=12).contains(&m) && d >= 1 && d <= rc::days_in_month(y, m);
     let got = Date::new(y as i16, m as i8, d as i8);
+    // the const constructor: the same date, or the documented panic
+    {
+        let (cy, cm, cd) = (y as i16, m as i8, d as i8);
+        let c = guard("op", std::panic::AssertUnwindSafe(|| Date::constant(cy, cm, cd))).ok();
+        ensure!(c.is_some() == want && c == got.as_ref().ok().copied(), "ctor-constant", "Date::constant({y},{m},{d}) = {c:?} but Date::new = {got:?}");
+    }
     match (&got, want) {
         (Ok(dt), true) => {
             ensure!(
@@ -298,6 +333,79 @@ fn run_ctor(rec: &Recorder, check: &'static str) {
     }
     rec.mark_exhaustive("all (y,m,d) with y in -10001..=10001, m in -1..=14, d in -1..=33");
     rec.add_sample(json!({"check": check, "triple": [1900, 2, 29], "expect": "Err"}));
+}
+
+/// The const constructors in the release build (no debug assertions): the documented panic
+/// for every invalid triple, the same date otherwise. Evaluated by a child process running the
+/// `rel` build of this harness (see relbuild.rs).
+fn check_ctor_release(cases: &[(i64, i64, i64)]) -> Vec<(Ymd, CaseResult)> {
+    let lines: Vec<String> = cases.iter().map(|(y, m, d)| format!("D {y} {m} {d}")).collect();
+    let answers = crate::relbuild::ask(&lines);
+    cases
+        .iter()
+        .enumerate()
+        .map(|(i, &(y, m, d))| {
+            let case = Ymd { y, m, d };
+            let r = (|| -> CaseResult {
+                let ans = match &answers {
+                    Ok(v) => v[i].clone(),
+                    Err(e) => fail!("HARNESS-PANIC", "release-build child: {e}"),
+                };
+                let valid = (-9999..=9999).contains(&y) && (1..=12).contains(&m) && d >= 1 && d <= rc::days_in_month(y, m);
+                if valid {
+                    ensure!(ans == format!("OK {y} {m} {d}"), "ctor-constant-release", "release build: Date::constant({y},{m},{d}) -> {ans:?}, want the date itself");
+                } else {
+                    ensure!(ans == "PANIC", "ctor-constant-release-accepts-invalid", "release build: Date::constant({y},{m},{d}) -> {ans:?}, but the triple is not a date (documented: panics)");
+                }
+                Ok(())
+            })();
+            (case, r)
+        })
+        .collect()
+}
+
+fn run_ctor_release(rec: &Recorder, check: &'static str) {
+    if crate::relbuild::rel_bin().is_none() {
+        rec.health_error(format!("{check}: JV_REL_BIN is not set or missing (the ./check driver builds the `rel` profile and sets it)"));
+        return;
+    }
+    let years: Vec<i64> = vec![-9999, -9998, -400, -1, 0, 1, 4, 100, 1582, 1600, 1900, 1969, 1970, 2000, 2023, 2024, 2100, 9998, 9999];
+    par_chunks(rec.opts.threads, years.len() as u64, |r| {
+        let mut evals = 0u64;
+        let mut invalid = 0u64;
+        for i in r {
+            let y = years[i as usize];
+            let mut batch = vec![];
+            for m in (-2i64..=15).chain([i8::MIN as i64, i8::MAX as i64]) {
+                for d in i8::MIN as i64..=i8::MAX as i64 {
+                    batch.push((y, m, d));
+                }
+            }
+            for (case, r) in check_ctor_release(&batch) {
+                evals += 1;
+                let valid = (1..=12).contains(&case.m) && case.d >= 1 && case.d <= rc::days_in_month(case.y, case.m);
+                if !valid {
+                    invalid += 1;
+                }
+                sweep_case(rec, check, &case, || r);
+            }
+        }
+        rec.add_evaluations(evals);
+        rec.add_distinct_nontrivial(invalid);
+        rec.add_class("ctor-release:triples", evals);
+        rec.add_class("ctor-release:invalid", invalid);
+    });
+    // years outside the range, with an otherwise valid month and day
+    let outside: Vec<(i64, i64, i64)> = [i16::MIN as i64, -10000, 10000, i16::MAX as i64].iter().flat_map(|&y| [(y, 1, 1), (y, 12, 31), (y, 2, 29)]).collect();
+    for (case, r) in check_ctor_release(&outside) {
+        sweep_case(rec, check, &case, || r);
+    }
+    rec.add_sample(json!({"check": check, "triple": [2024, 1, 0], "build": "release", "expect": "panic"}));
+}
+
+fn replay_ctor_release(v: Value) -> CaseResult {
+    let c: Ymd = serde_json::from_value(v).map_err(|e| Failure::new("decode", e.to_string()))?;
+    check_ctor_release(&[(c.y, c.m, c.d)]).pop().map(|x| x.1).unwrap_or(Ok(()))
 }
 
 fn replay_ctor(v: Value) -> CaseResult {
@@ -531,6 +639,7 @@ pub fn property() -> Property {
         checks: vec![
             Box::new(Sweep { name: "c01.dates", run: run_dates, replay: replay_dates }),
             Box::new(Sweep { name: "c01.ctor", run: run_ctor, replay: replay_ctor }),
+            Box::new(Sweep { name: "c01.ctor_release", run: run_ctor_release, replay: replay_ctor_release }),
             Box::new(Sweep { name: "c01.nth_of_month", run: run_nth_of_month, replay: replay_nth_of_month }),
             Box::new(Prop { name: "c01.nth_weekday", quick: 400_000, thorough: 20_000_000, strategy: strat_nth, test: test_nth }),
             Box::new(Sweep { name: "c01.iso_new", run: run_iso, replay: replay_iso }),
